@@ -2,7 +2,7 @@
    boundary extraction), about Model/TetMesh.v at exact real arithmetic.
    Nothing but statements closed by [exact]; proofs live in Proofs/TetMeshP.v. *)
 From Coq Require Import List Reals Permutation.
-From LaPyV Require Import Base.Scalar Base.Vec3 Base.ListAux Model.TetMesh Proofs.TetMeshP.
+From LaPyV Require Import Base.Scalar Base.Vec3 Base.ListAux Model.TetMesh Model.TriaAdj Proofs.TetMeshP Proofs.TriaAdjP Proofs.TetBoundaryP.
 Import ListNotations.
 Open Scope R_scope.
 
@@ -63,3 +63,25 @@ Theorem C12_volume_is_sum_of_face_cones : forall v t,
   tet_vol6 Rops v t = cone6 v (face0 t) + cone6 v (face1 t) + cone6 v (face2 t) + cone6 v (face3 t).
 Proof. exact tet_vol6_faces. Qed.
 Print Assumptions C12_volume_is_sum_of_face_cones.
+
+(* ---- the boundary surface is closed.  For every tetrahedral mesh (four distinct vertices per tetrahedron) in which no face --
+   as a vertex set -- belongs to more than two tetrahedra, every edge lies in an EVEN number of boundary faces ... *)
+Theorem C12_boundary_edges_lie_in_an_even_number_of_faces : forall ts i j,
+  Forall distinct_tet ts -> face_manifold ts -> i <> j -> exists m, tri_count (tet_boundary_tria ts) i j = (2 * m)%nat.
+Proof. exact tet_boundary_even. Qed.
+Print Assumptions C12_boundary_edges_lie_in_an_even_number_of_faces.
+
+(* ... so TriaMesh.is_closed of the extracted surface is true *)
+Theorem C12_boundary_surface_is_closed : forall ts,
+  Forall distinct_tet ts -> face_manifold ts -> is_closed (tet_boundary_tria ts) = true.
+Proof. exact tet_boundary_closed. Qed.
+Print Assumptions C12_boundary_surface_is_closed.
+
+(* the hypotheses hold for concrete meshes: three tetrahedra around the edge 1-2, with four interior and ... boundary faces *)
+Example C12_boundary_hypotheses_are_satisfiable :
+  let ts := [(0, 1, 2, 3); (1, 2, 3, 4); (1, 2, 4, 5)]%nat in
+  Forall distinct_tet ts /\ face_manifold ts /\ length (tet_boundary_tria ts) = 8%nat.
+Proof.
+  cbv zeta. split; [apply distinct_tet_b_ok; vm_compute; reflexivity|]. split; [apply face_manifold_b_ok; vm_compute; reflexivity|].
+  vm_compute. reflexivity.
+Qed.
